@@ -208,6 +208,7 @@ func init() {
 				r := c.Rand(i)
 				cfg := randProfile(r)
 				cfg.CompileErrPct = 5
+				cfg.BadLitPct = 2
 				g := lang.NewGen(r, cfg)
 				p := g.Program()
 				toks := lang.Flatten(p)
@@ -241,7 +242,7 @@ func init() {
 				}
 				var rs []rendering
 				for j := 0; j < k; j++ {
-					if damaged || base.perr || j%2 == 0 {
+					if damaged || j%2 == 0 {
 						rs = append(rs, rendering{lang.Layout(toks, hostileLayout(r), r).Src, "layout"})
 					} else {
 						vp := &lang.Program{Stmts: varyStmts(p.Stmts, r, []int{5, 15, 40}[r.Intn(3)])}
@@ -259,10 +260,44 @@ func init() {
 						c.Violation(got.pan, "panic on a re-rendering: "+got.panWhat, map[string]any{"source_q": fmt.Sprintf("%q", rd.src)})
 						break
 					}
+					if base.perr && rd.what != "layout" {
+						// a rejected program re-rendered with other parentheses / ';': later diagnostics may
+						// quote other tokens, but it must stay rejected
+						if !got.perr {
+							c.Violation("layout-changes-meaning:rejected-becomes-accepted", "a rejected program is accepted when redundant parentheses or ';' are varied",
+								map[string]any{"canonical": string(canon), "rendering": string(rd.src), "canonical_log": base.log})
+							break
+						}
+						c.Count("renderings_of_rejected_programs", 1)
+						c.Nontrivial(core.Hash(rd.src))
+						continue
+					}
 					if d := diffCompiled(base, got); d != "" {
 						c.Violation("layout-changes-meaning:"+stripDigits(core.Trunc(d, 30)), "two renderings of one program differ ("+rd.what+"): "+d,
 							map[string]any{"canonical": string(canon), "rendering": string(rd.src), "rendering_q": fmt.Sprintf("%q", rd.src), "variation": rd.what})
 						break
+					}
+					// the same rendering delivered in chunks: layout must not interact with read boundaries
+					if len(rd.src) > 2 {
+						var steps []mon.Step
+						for k, m := 0, 1+r.Intn(3); k < m; k++ {
+							steps = append(steps, mon.Step{N: 1 + r.Intn(len(rd.src)-1)})
+						}
+						sc := mon.NewScript("in", rd.src, steps)
+						var lg2, out2 mon.LockedWriter
+						fp, ferr := bcl.ParseFile(sc, bcl.OptLogger(&lg2), bcl.OptOutput(&out2))
+						c.Eval(1)
+						bad := (ferr != nil) != got.perr
+						if !bad && ferr == nil {
+							vp := bcl.VerifProgParts(fp)
+							bad = !bytes.Equal(vp.Code, got.code) || len(vp.Constants) != len(got.consts)
+						}
+						if bad {
+							c.Violation("layout-changes-meaning:chunked", fmt.Sprintf("a rendering parsed in chunks (reads %s) differs from the same bytes parsed whole", sc.ReadLog()),
+								map[string]any{"rendering": string(rd.src), "rendering_q": fmt.Sprintf("%q", rd.src), "reads": sc.ReadLog(), "chunked_log": lg2.String()})
+							break
+						}
+						c.Count("renderings_also_parsed_in_chunks", 1)
 					}
 					c.Nontrivial(core.Hash(rd.src))
 					c.Count("renderings_compared_"+strings.ReplaceAll(rd.what, "+", "_"), 1)
@@ -497,6 +532,94 @@ func c08Case(c *core.Ctx, i int64, toks []lang.Tok, orig *lang.Program, r *rand.
 	}
 }
 
+// c08Limits: runtime errors raised at the implementation limits must also
+// point just after the last token of the failing operation: the operand whose
+// push finds the stack full, the 'def' ... '{' of the block that does not fit.
+func c08Limits(c *core.Ctx, i int64, k int) {
+	var b strings.Builder
+	want := -1
+	kind := ""
+	pushers := []string{"2", "0", "1", "true", "false", "nil", "v0", "\"s\"", "2.5", "f"}
+	switch {
+	case k < len(pushers)*3:
+		// 1022..1024 variables, then a statement pushing one or two operands
+		x := pushers[k%len(pushers)]
+		nv := 1022 + k/len(pushers)
+		inBlock := x == "f"
+		if inBlock {
+			b.WriteString("def b {\n")
+		}
+		for j := 0; j < nv; j++ {
+			fmt.Fprintf(&b, "var v%d = %d\n", j, j%7)
+		}
+		// three operands are pushed on top of nv variables; the one that finds
+		// the 1024-slot stack full is operand number 1024-nv (0-based)
+		ops := []string{"5", "6", x}
+		early := -1
+		if inBlock {
+			b.WriteString("g = 1")
+			early = b.Len() // with 1024 variables already this push finds the stack full
+			b.WriteString("\neval ")
+			ops = []string{"g", "g", x}
+		} else {
+			b.WriteString("print ")
+		}
+		var ends [3]int
+		b.WriteString(ops[0])
+		ends[0] = b.Len()
+		b.WriteString(" == (" + ops[1])
+		ends[1] = b.Len()
+		b.WriteString(" == " + ops[2])
+		ends[2] = b.Len()
+		b.WriteString(")\n")
+		if inBlock {
+			b.WriteString("}\n")
+		}
+		want = ends[1024-nv]
+		if inBlock && nv == 1024 {
+			want = early
+		}
+		kind = "locals_then_" + x
+	default:
+		// nested operands: the 1025th operand finds the stack full
+		n := 1030 + (k - len(pushers)*3)
+		b.WriteString("print ")
+		for j := 0; j < n; j++ {
+			b.WriteString("1+(")
+			if j == 1024 {
+				want = b.Len() - 2
+			}
+		}
+		b.WriteString("1" + strings.Repeat(")", n) + "\n")
+		kind = "nested_operands"
+	}
+	src := []byte(b.String())
+	res := Interpret(src)
+	c.Eval(1)
+	if res.Panic != "" {
+		c.Violation(panicSig(res.Panic, res.Stack), "panic at an implementation limit: "+res.Panic, map[string]any{"kind": kind})
+		return
+	}
+	if res.Err == nil {
+		c.Count("limit_programs_without_error", 1)
+		return
+	}
+	_, pos, ok := lang.ClassOfRuntimeError(res.Err.Error())
+	if !ok {
+		return
+	}
+	if want < 0 {
+		return
+	}
+	if exp := posString(src, want); pos != exp {
+		c.Violation("runtime-error-position", fmt.Sprintf("error %q at %s, the failing operation's last token ends at %s (%s)", res.Err, pos, exp, kind),
+			map[string]any{"kind": kind, "source_tail": string(src[max(0, len(src)-200):])})
+		return
+	}
+	c.Count("limit_error_positions_checked", 1)
+	c.Nontrivial(core.Hash("limit", k))
+}
+
 func init() {
 	core.Register(&core.Check{
 		ID:    "C08",
@@ -511,6 +634,11 @@ func init() {
 			n := int64(c.Pick(40000, 4000000))
 			for i := int64(0); i < n; i++ {
 				if !c.Mine(i) {
+					continue
+				}
+				if i < 34 {
+					c.Begin(i)
+					c08Limits(c, i, int(i))
 					continue
 				}
 				c.Idle()
